@@ -1,6 +1,9 @@
 -------------------------------- MODULE H2FpOps --------------------------------
 (* Frame alphabet of the HTTP/2 fingerprint specifications and Marshal as the code prints it               *)
 (* (metadata.HTTP2FingerprintingFrames.Marshal).  No variables: shared by H2Fingerprint.tla and H2FPConc.tla. *)
+(* The header part of the fingerprint is a function of the decoded header LIST of the request block (the order of its pseudo-header   *)
+(* fields).  How a field was represented on the wire - indexed, literal with / without indexing, literal never indexed, Huffman or    *)
+(* raw - is below this module's alphabet: the replay varies it per connection (h2raw.Enc, h2raw.BlockRep) and expects the same text.  *)
 EXTENDS FpUtil
 
 \* ---- the frame alphabet; concrete wire values live in the harness under the same names
